@@ -599,6 +599,12 @@ func (g *Gen) providersAct() {
 		}
 		pi := g.acctIndex(q.Provider)
 		if pi < 0 {
+			// a provider bound under an address that is not a key-holding account: it answers only in runs that
+			// allow it (never in export runs, where its earnings would be refunded to an address the bank cannot hold)
+			if g.rawResponders && q.RequestHeight == s.Height-1 && g.chance(0.8) {
+				ref := reqRefOf(g.ctxRefFor(ri.Ctx), ri.Batch, rawRef(q.Provider))
+				g.submit(Op{K: "tx", Tx: &TxOp{Label: g.label("t"), Sender: rawRef(q.Provider), Msgs: []MsgOp{{T: "respond", Req: ref, Result: okResult, Output: goodOutput}}}}, g.pick(int(q.ExpirationHeight-q.RequestHeight)))
+			}
 			continue
 		}
 		// decide once per request, in the block after it was issued
